@@ -61,6 +61,16 @@ struct VmSharedReadonly {
     foreign_function_policies: Vec<ForeignCallPolicy>,
 }
 
+impl Drop for VmSharedReadonly {
+    fn drop(&mut self) {
+        // the string constants were leaked by StringObject::new_static in Runtime::new;
+        // no thread can outlive the Arc that owns this struct, so nothing refers to them anymore
+        for s in self.static_strings.drain(..) {
+            let _ = unsafe { Box::from_raw(s) };
+        }
+    }
+}
+
 /*
 The CLI or some other program will
    2. initialize the worker pool (pool of real OS threads which will run the green threads) (OR JUST USE RAYON)
